@@ -13,6 +13,7 @@ EXPLANATION = (
     "a linear expression, the change of the `used` field on that path (clear: used := 0). `used` and `key_costs` have no writers outside "
     "these methods (all-writers over the crate). room_left's return value must be max_cost.load() - used - cost; update*/remove* report "
     "exactly the presence outcome of their lookup; increment/update/remove delegate to their *_hashed_key twins with hash_key(k). "
+    "R8: every constructor installs the sample size and budget it is given (used = 0). "
     "i64 overflow of cost sums is an assumption (A-cost); fill_sample's content is checked only structurally."
 )
 TRUSTED_BASE = ["MIR facts", "generic HashMap model (insert returns the previous value iff present; get_mut hands out the slot)", "A-cost: cost sums fit in i64"]
@@ -28,6 +29,7 @@ def run(cx, chk):
     chk.rule("C20.R5", "fill_sample: unchanged when already long enough; otherwise only pushes (key, cost) pairs read from key_costs, re-testing len >= samples after every push")
     chk.rule("C20.R7", "update_max_cost installs the given budget on every path (room_left is computed from it, also when it is below the recorded sum); nothing else writes max_cost")
     chk.rule("C20.R6", "clear empties the tracker unconditionally: every path clears key_costs and sets used to 0 (costs are signed, so `used == 0` does not mean nothing is tracked)")
+    chk.rule("C20.R8", "constructors install what they are given: samples = the usize argument (one common constant when there is none), max_cost = the i64 argument, used = 0")
     chk.rule("C20.R4", "increment/update/remove delegate to the *_hashed_key twin with hash_key(k)")
     for cfg, F in cx.cfgs():
         methods = [f for f in F.doc["fns"] if f["kind"] == "AssocFn" and (F.impl_of(f) or {}).get("self_head") == ADT]
@@ -57,6 +59,57 @@ def run(cx, chk):
         fill_sample(cx, chk, cfg, F)
         clear_total(cx, chk, cfg, F)
         budget(cx, chk, cfg, F)
+        constructors(cx, chk, cfg, F)
+
+
+def constructors(cx, chk, cfg, F):
+    """C20.R8: what a constructor is given is what the tracker works with.  Slots by type: the one usize argument is the sample size, the
+    one i64 argument the budget."""
+    n = 0
+    defaults = {}
+    for f in F.doc["fns"]:
+        if not (f["kind"] == "AssocFn" and (F.impl_of(f) or {}).get("self_head") == ADT and not f.get("has_self")):
+            continue
+        if (f.get("output") or {}).get("n") != ADT:
+            continue
+        us = [i + 1 for i, t in enumerate(f["inputs"]) if t == {"k": "prim", "n": "usize"}]
+        i64s = [i + 1 for i, t in enumerate(f["inputs"]) if t == {"k": "prim", "n": "i64"}]
+        if len(us) > 1 or len(i64s) != 1:
+            raise AnalysisError("C20.R8: constructor %s has an unexpected signature %s" % (f["q"], f["sig"]))
+        ok = True
+
+        def bad(what, msg):
+            nonlocal ok
+            if ok:
+                chk.violation("C20.R8", "%s|%s" % (f["q"], what), "%s: %s" % (f["q"], msg), f["span"]["file"], f["span"]["lo"], f["q"], None, cfg)
+            ok = False
+        for p in cx.paths(cfg, f["path"]):
+            rv = p.ret
+            if not (isinstance(rv, tuple) and rv[0] == "agg" and rv[1] == "adt" and rv[2][0] == ADT):
+                raise AnalysisError("C20.R8: %s does not return a SampledLFU aggregate: %s" % (f["q"], fmt_val(rv)[:80]))
+            v = dict(zip(rv[4], rv[3]))
+            n += 1
+            if us:
+                if v.get("samples") != ("param", us[0], False):
+                    bad("samples", "the tracker is built with sample size %s instead of the `samples` argument: fill_sample stops at a different length than configured" % fmt_val(v.get("samples"))[:60])
+            else:
+                defaults.setdefault(v.get("samples"), []).append(f)
+            if v.get("used") != ("const", "i64", "0"):
+                bad("used", "a new tracker starts with used = %s" % fmt_val(v.get("used"))[:60])
+            mc = v.get("max_cost")
+            ev = [e for e in p.events if e["ev"] == "call" and isinstance(mc, tuple) and mc[0] == "call" and e.get("id") == mc[1]]
+            if not (ev and (ev[0]["q"] or "").endswith("Atomic::new") and ev[0]["args"] and ev[0]["args"][0] == ("param", i64s[0], False)):
+                bad("max_cost", "the budget installed (%s) is not the `max_cost` argument" % fmt_val(mc)[:60])
+        if ok:
+            chk.ob("C20.R8", "%s:%s" % (cfg, f["q"]), "samples, max_cost and used = 0 installed as given")
+    if len(defaults) > 1 or any(not (isinstance(k, tuple) and k[0] == "const") for k in defaults):
+        common = max(defaults, key=lambda k: len(defaults[k]))
+        for k, fs in defaults.items():
+            if k != common or not (isinstance(k, tuple) and k[0] == "const"):
+                for f in fs:
+                    chk.violation("C20.R8", "%s|default-samples" % f["q"], "%s: default sample size %s differs from its sibling constructors (%s)" % (f["q"], fmt_val(k)[:40], fmt_val(common)[:40]),
+                                  f["span"]["file"], f["span"]["lo"], f["q"], None, cfg)
+    chk.floor("C20.R8", "constructor paths in %s" % cfg, n, 6)
 
 
 def budget(cx, chk, cfg, F):
